@@ -61,21 +61,24 @@ START_TOKENS = {'S_XTA': ('T_NEW', 'T_OLD'), 'S_DECLARATION': ('T_NEW_DECLARATIO
 
 
 def start_tokens():
-    """part -> (token when newxta, token otherwise), read from setStartToken() in src/parser.y"""
+    """part -> (token when newxta, token otherwise), read from src/parser.y: the switch over the xta_part_t that selects the start token, wherever it stands and
+    whether its cases assign the token (syntax_token = ..; break;) or return it"""
     src = open(os.path.join(vlib.REPO, 'src', 'parser.y')).read()
-    m = re.search(r'static\s+void\s+setStartToken\s*\([^)]*\)\s*\{(.*?)\n\}', src, re.S)
-    if not m:
-        return None
-    out, part = {}, None
-    for cm in re.finditer(r'case\s+(S_\w+)\s*:|syntax_token\s*=\s*([^;]+);', m.group(1)):
+    src = src[src.rfind('%%'):] if src.count('%%') >= 2 else src
+    src = re.sub(r'//[^\n]*|/\*.*?\*/', ' ', src, flags=re.S)
+    out, part = {}, []
+    for cm in re.finditer(r'case\s+(S_\w+)\s*:|(?:\w+\s*=|return)\s*([^;{}]+);', src):
         if cm.group(1):
-            part = cm.group(1)
+            part.append(cm.group(1))
         elif part:
             e = re.sub(r'\s+', '', cm.group(2))
-            t = re.match(r'^\(?newxta\)?\?(\w+):(\w+)$', e)
-            out[part] = (t.group(1), t.group(2)) if t else ((e, e) if re.fullmatch(r'\w+', e) else ('?' + e, '?'))
-            part = None
-    return out
+            t = re.match(r'^\(?newxta\)?\?(T_\w+):(T_\w+)$', e)
+            v = (t.group(1), t.group(2)) if t else ((e, e) if re.fullmatch(r'T_\w+', e) else None)
+            if v:
+                for q in part:
+                    out.setdefault(q, v)
+            part = []
+    return out or None
 
 
 TRANSITION_SECTIONS = ['Select', 'Guard', 'Sync', 'Assign', 'Probability']
